@@ -125,6 +125,11 @@ def ObtainQuantity(
                         None,
                         unknown_unit_caption,
                     )
+                # The quantity is immutable and shared: it must not alias the mapping (nor the
+                # [unit, exp] sequences) the caller handed in and may go on editing.
+                unit = unit.__class__(
+                    (category, list(unit_and_exp)) for (category, unit_and_exp) in unit.items()
+                )
                 quantity = quantities_cache[tuple(key)] = Quantity(unit, None, unknown_unit_caption)
                 return quantity
 
